@@ -1,5 +1,6 @@
 import CalVerif.Prim.Wire
 import CalVerif.Model.Reader
+import CalVerif.Model.Auto
 /-! Driver for C07: runs a call history through the reader state machine with a *symbolic* file
     (every `FileSem` function returns a term naming itself and its arguments) and prints, per call,
     the state in force before it and the symbolic result. The harness evaluates the symbolic result
@@ -59,6 +60,26 @@ def runSym (F : FileSem) : State → List Op → List String
     let (s', o) := step F s op
     s!"{showHdr s.hdr},{bstr s.mergedLoaded},{bstr s.tablesLoaded},{o}" :: runSym F s' rest
 
+def fmtName : Auto.Fmt → String
+  | .xls => "xls" | .xlsx => "xlsx" | .xlsb => "xlsb" | .ods => "ods"
+
+def parseAccepts (s : String) : Option Auto.Accepts :=
+  match s.toList with
+  | [a, b, c, d] => some ⟨a == '1', b == '1', c == '1', d == '1'⟩
+  | _ => none
+
+/-- `autors <bits>` / `autopath <ext|-> <bits>`; bits = does Xls / Xlsx / Xlsb / Ods `new` open the bytes -/
+def handleAuto (ws : List String) : Option String :=
+  match ws with
+  | ["autors", bits] => (parseAccepts bits).map fun a =>
+      match Auto.fromRs a with | some f => fmtName f | none => "cannot"
+  | ["autopath", ext, bits] => (parseAccepts bits).map fun a =>
+      match Auto.fromPath (if ext = "-" then none else some ext) a with
+      | .opened f => fmtName f
+      | .readerError f => "err:" ++ fmtName f
+      | .cannotDetect => "cannot"
+  | _ => none
+
 def handle (line : String) : String :=
   match Wire.words line with
   | ["hist", kind, sheets, ops] =>
@@ -66,6 +87,6 @@ def handle (line : String) : String :=
     match (ops.splitOn ";").mapM parseOp with
     | some l => ";".intercalate (runSym (symFile (kind = "eager") names) {} l)
     | none => "bad-op"
-  | _ => "bad-op"
+  | ws => (handleAuto ws).getD "bad-op"
 
 def main : IO Unit := Wire.run handle
